@@ -108,7 +108,19 @@ def gen_build_spec(g, spec, box, kinds, est_size=0.6):
             items.append({"kind": "pers", "model": "WCM", "lp": round(g.uniform(0.8, 4.0), 2), "start": 0,
                           "stop": nres - 1})
         if items:
-            blocks.append({"mol": name, "from": lo, "to": hi, "items": items})
+            geo = [it for it in items if it["kind"] in ("sphere", "cylinder", "rectangle")]
+            if geo and g.random() < 0.3:
+                # the same molecule indices named by two [ molecule ] blocks: a general block with (part of) the
+                # geometry first, then a block for all or the first of those molecules with the remaining directives
+                # (possibly none).  Geometric restraints of several blocks add up in polyply.
+                k = g.randint(1, len(geo))
+                first = geo[:k]
+                rest = [it for it in items if not any(it is f for f in first)]
+                blocks.append({"mol": name, "from": lo, "to": hi, "items": first})
+                sub_hi = hi if (g.random() < 0.5 or any(it["kind"] in ("dist", "pers") for it in rest)) else lo + 1
+                blocks.append({"mol": name, "from": lo, "to": sub_hi, "items": rest})
+            else:
+                blocks.append({"mol": name, "from": lo, "to": hi, "items": items})
     return blocks
 
 
